@@ -99,6 +99,35 @@ impl<'a> ListGen<'a> {
         }
     }
 
+    /// a result of ANY type (the function's result type is then a union, and the call site's type is
+    /// specialised per argument where the function dispatches on its parameter)
+    fn any_result(&mut self, vars: &[&str]) -> String {
+        match self.r.below(8) {
+            0 => format!("0x0{}", self.k()),
+            1 => {
+                let e = self.int_expr(vars);
+                format!("[{e}, {}]", self.k())
+            }
+            2 => format!("A[{}]", self.int_expr(vars)),
+            _ => self.int_expr(vars),
+        }
+    }
+
+    /// sometimes a block of type tests on the result of a call
+    fn post(&mut self) -> String {
+        if self.r.chance(1, 2) {
+            return String::new();
+        }
+        let mut tests = vec!["='int => 1", "='bin => 2", "=[_, _] => 3", "=A[_] => 4", "=A[x] => x", "=('int)x => [x, 1] __integer_add__"];
+        self.r.shuffle(&mut tests);
+        let n = 1 + self.r.usize(3);
+        let mut brs: Vec<String> = tests.into_iter().take(n).map(|t| format!("| {t}")).collect();
+        if self.r.chance(2, 3) {
+            brs.push(format!("| {}", 5 + self.k()));
+        }
+        format!(" {{ {} }}", brs.join(" "))
+    }
+
     /// `['list, 'int]` → integer: a fold with an accumulator
     fn fun_acc(&mut self) -> Fun {
         let name = self.fresh("f");
@@ -148,14 +177,18 @@ impl<'a> ListGen<'a> {
         let name = self.fresh("g");
         let mut pool: Vec<Br> = vec![];
         let k = self.k();
-        pool.push(br(format!("=Nil => {k}"), true, false, false));
-        pool.push(br("=Cons[h, Nil] => h".to_string(), false, false, true));
+        let r0 = self.any_result(&[]);
+        let _ = k;
+        pool.push(br(format!("=Nil => {r0}"), true, false, false));
+        let r1 = self.any_result(&["h"]);
+        pool.push(br(format!("=Cons[h, Nil] => {r1}"), false, false, true));
         pool.push(br("=Cons[_, t] => t ^".to_string(), false, true, false));
         let (k1, k2) = (self.k(), self.k());
         pool.push(br(format!("=Cons[h, Cons[{k1}, _]] => [h, {k2}] {}", self.op()), false, false, true));
         let (k3, k4) = (self.k(), self.k());
         pool.push(br(format!("=Cons[{k3}, _] => {k4}"), false, false, false));
-        pool.push(br("=Cons[h, _] => h".to_string(), false, true, false));
+        let r2 = self.any_result(&["h"]);
+        pool.push(br(format!("=Cons[h, _] => {r2}"), false, true, false));
         pool.push(br("=Cons[_, Cons[_, t]] => t ^".to_string(), false, false, true));
         self.assemble(name, "one", "'list", pool)
     }
@@ -165,10 +198,12 @@ impl<'a> ListGen<'a> {
         let name = self.fresh("w");
         let mut pool: Vec<Br> = vec![];
         let e = self.int_expr(&["v"]);
+        let e = if self.r.chance(1, 2) { e } else { self.any_result(&["v"]) };
         pool.push(br(format!("=Leaf[v] => {e}"), true, false, false));
         pool.push(br("=Node[l, _] => l ^".to_string(), false, true, false));
         pool.push(br("=Node[_, r] => r ^".to_string(), false, true, false));
-        pool.push(br("=Node[Leaf[v], _] => v".to_string(), false, false, true));
+        let r3 = self.any_result(&["v"]);
+        pool.push(br(format!("=Node[Leaf[v], _] => {r3}"), false, false, true));
         pool.push(br("=Node[Node[l, _], r] => Node[l, r] ^".to_string(), false, false, true));
         let k = self.k();
         pool.push(br(format!("=Node[_, Leaf[{k}]] => {k}"), false, false, true));
@@ -251,7 +286,7 @@ impl<'a> ListGen<'a> {
         let n = 2 + self.r.usize(3);
         let mut brs = vec![];
         for (p, vars) in pats.into_iter().take(n) {
-            let e = self.int_expr(&vars);
+            let e = self.any_result(&vars);
             brs.push(format!("| ={p} => {e}"));
         }
         if self.r.chance(1, 2) {
@@ -350,7 +385,7 @@ impl<'a> ListGen<'a> {
             let sh = self.shape_lit();
             let k = self.k();
             obs.push(match kind {
-                "shape" => format!("{sh} {name}"),
+                "shape" => format!("{sh} {name}{}", self.post()),
                 "shapefield" => format!("[{sh}, {k}] {name}"),
                 _ => format!("E[id: {k}, s: {sh}] {name}"),
             });
@@ -401,11 +436,11 @@ impl<'a> ListGen<'a> {
                 }
                 "one" => {
                     let l = self.list_lit();
-                    format!("{l} {name}")
+                    format!("{l} {name}{}", self.post())
                 }
                 _ => {
                     let t = self.tree_lit(3);
-                    format!("{t} {name}")
+                    format!("{t} {name}{}", self.post())
                 }
             };
             obs.push(o);
